@@ -32,6 +32,16 @@ class Case:
         self.meta = meta or {}
 
 
+def judge_safely(mod, case, impl, model, spec, ctx):
+    """The module's judge; an answer it cannot read (an exception while judging) is a verdict on that case with the answer
+    quoted, not a traceback that ends the run without a VIOLATION line."""
+    try:
+        return mod.judge(case, impl, model, spec, ctx)
+    except Exception as e:  # noqa: BLE001
+        return [("disagree", "%s: the judge could not read the runners' answers on this case (%s: %s); implementation %r, model %r"
+                 % (case.kind, type(e).__name__, e, (impl or "")[:120], (model or "")[:120]))]
+
+
 def main():
     ap = argparse.ArgumentParser()
     ap.add_argument("pid")
@@ -157,7 +167,7 @@ def main():
                 dist[c.kind] = dist.get(c.kind, 0) + 1
                 if c.nontrivial:
                     nontrivial_set.add(c.impl)
-                verdicts = mod.judge(c, impl_out[i], model_out[i], spec_out[i], ctx)
+                verdicts = judge_safely(mod, c, impl_out[i], model_out[i], spec_out[i], ctx)
                 if verdicts and getattr(mod, "RETRY_PREFIX", None) and (mod.RETRY_PREFIX == "*" or c.kind.startswith(mod.RETRY_PREFIX)):
                     # real sockets / real time: a verdict must persist in 2 of 3 solitary re-runs
                     again = 0
@@ -166,7 +176,7 @@ def main():
                             o = vlib.norm_impl(vlib.run_lines(vlib.HARNESS_BIN, [c.impl], shards=1, timeout=300)[0])
                         except Exception:
                             continue
-                        if mod.judge(c, o, model_out[i], spec_out[i], ctx):
+                        if judge_safely(mod, c, o, model_out[i], spec_out[i], ctx):
                             again += 1
                             impl_out[i] = o
                     if again == 0:
